@@ -69,6 +69,13 @@ theorem View.sameStructure (c : Cell) (x : α) (v : View ν α) : SameStructure 
   | matrixOf s r cn ih =>
     exact ⟨by simp [View.setCell, View.shape, ih.1], by intro idx; simp [View.setCell, View.get, ih.2.1],
       by simp [View.setCell, View.leaves, ih.2.2]⟩
+  | mrange s rows columns ih =>
+    exact ⟨by simp [View.setCell, View.shape, ih.1], by intro idx; simp [View.setCell, View.get, ih.2.1],
+      by simp [View.setCell, View.leaves, ih.2.2]⟩
+  | mreverse s rows columns ih =>
+    exact ⟨by simp [View.setCell, View.shape, ih.1],
+      by intro idx; simp [View.setCell, View.get, ih.2.1, ih.1],
+      by simp [View.setCell, View.leaves, ih.2.2]⟩
   | tmap s ih =>
     exact ⟨by simp [View.setCell, View.shape, ih.1], by intro idx; simp [View.setCell, View.get, ih.2.1],
       by simp [View.setCell, View.leaves, ih.2.2]⟩
